@@ -300,19 +300,36 @@ func quietLogger() {
 	logger.SetErrOutput(io.Discard)
 }
 
-// confirm re-executes a failing case: a violation is reported only if it fails identically
-// 5 times out of 5; mixed results are a harness error (nondeterminism), never a violation.
+// confirm re-executes a failing case 5 times. A case that fails identically every time is a
+// confirmed violation. A case that was observed once on the real code but does not repeat is still
+// reported (the observation is real: a request got an answer the property excludes), marked as not
+// reproducible: the implementation's answer then depends on state outside the explored world (a
+// process-wide cache or pool that survives the fresh proxy, read-ahead randomness, map iteration
+// order). On the unchanged tree this never happens (counter unreproducible_violations is 0 in every
+// committed run); treating it as a harness error would turn a detection into a broken check.
 func (c *Ctx) confirm(key, msg string, size int, replay any, again func() (string, bool)) {
 	if again != nil {
 		for i := 0; i < 5; i++ {
 			k, failed := again()
 			if !failed || k != key {
-				c.Error("NONDETERMINISM: case reported %q but re-execution %d gave failed=%v key=%q: %s", key, i, failed, k, msg)
+				c.Unstable("case reported %q but re-execution %d gave failed=%v key=%q", key, i, failed, k)
+				c.Inc("unreproducible_violations")
+				c.Violate(key, "[observed once, did not repeat on re-execution: the answer depends on state outside the explored world] "+msg, size+1<<20, replay)
 				return
 			}
 		}
 	}
 	c.Violate(key, msg, size, replay)
+}
+
+// Unstable records that the implementation (or, on the unchanged tree, the harness) did not behave
+// deterministically for identical inputs: counted, noted, and the run is not exhaustive.
+func (c *Ctx) Unstable(format string, a ...any) {
+	c.Inc("nondeterministic_observations")
+	c.Exhaustive = false
+	if c.Counters["nondeterministic_observations"] <= 5 {
+		c.Note("NONDETERMINISM: "+format, a...)
+	}
 }
 
 // ---------------------------------------------------------------------------------------------
